@@ -148,8 +148,11 @@ def _weights_and_samplers(ctx, m, f, loop, aug, branch, cname) -> None:
         # U6 slot
         rets = [r for r in walk_local(branch) if isinstance(r, ast.Return) and r.value is not None]
         for r in rets:
-            t = norm(r.value)
-            if f"range({idx})" in t and f"range(len(subrecs) - {idx} - 1)" in t:
+            shape = _slot_shape(f, r.value)
+            from .tablemethod import affine as _aff
+            good = (shape is not None and len(shape) == 3 and shape[0][0] == "none" and shape[1][0] == "obj" and shape[2][0] == "none"
+                    and shape[0][1] == {idx: 1} and shape[2][1] == {"len(subrecs)": 1, idx: -1, "1": -1})
+            if good:
                 ctx.ok("U6", "union walk: the sampled object is placed at slot i of the children, None elsewhere")
             else:
                 ctx.violation("U6", r, f"union walk: the object must be returned at slot {idx} (that many None before it, len(subrecs)-{idx}-1 after)")
@@ -353,3 +356,46 @@ def _ancestors(n, stop):
     while cur is not None and cur is not stop:
         yield cur
         cur = getattr(cur, "_parent", None)
+
+
+def _slot_shape(f, e):
+    """A tuple written as a concatenation of runs of None and single objects:
+    [("none", affine count) | ("obj", text)], or None when not of that form."""
+    from .tablemethod import affine
+    e = D.expanded(f, e)
+    parts = []
+
+    def flat(x):
+        if isinstance(x, ast.BinOp) and isinstance(x.op, ast.Add):
+            flat(x.left)
+            flat(x.right)
+        else:
+            parts.append(x)
+
+    flat(e)
+    out = []
+    for p in parts:
+        if isinstance(p, ast.Call) and norm(p.func) == "tuple" and len(p.args) == 1 and isinstance(p.args[0], (ast.GeneratorExp, ast.ListComp)) \
+                and isinstance(p.args[0].elt, ast.Constant) and p.args[0].elt.value is None and len(p.args[0].generators) == 1 and not p.args[0].generators[0].ifs:
+            it = p.args[0].generators[0].iter
+            if isinstance(it, ast.Call) and norm(it.func) == "range" and len(it.args) == 1:
+                a = affine(it.args[0])
+                if a is None:
+                    return None
+                out.append(("none", a))
+                continue
+            return None
+        if isinstance(p, ast.BinOp) and isinstance(p.op, ast.Mult):
+            tup, cnt = (p.left, p.right) if isinstance(p.left, ast.Tuple) else (p.right, p.left)
+            if isinstance(tup, ast.Tuple) and len(tup.elts) == 1 and isinstance(tup.elts[0], ast.Constant) and tup.elts[0].value is None:
+                a = affine(cnt)
+                if a is None:
+                    return None
+                out.append(("none", a))
+                continue
+            return None
+        if isinstance(p, ast.Tuple) and len(p.elts) == 1:
+            out.append(("obj", norm(p.elts[0])))
+            continue
+        return None
+    return out
